@@ -13,6 +13,8 @@ package main
 import (
 	"fmt"
 	"math/big"
+	"os"
+	"path/filepath"
 	"sort"
 	"strings"
 	"time"
@@ -479,22 +481,10 @@ func c3CasedNonASCII(name string) bool {
 	return false
 }
 
-// c3LongClass: a long float gets its precision from the number of characters of its digit string;
-// the printer writes the shortest digits, so only a normalised digit string (no leading or
-// trailing zero, a point exactly when there are two or more digits) keeps its precision.
-func c3LongClass(text string) string {
-	m := strings.ToLower(text)
-	if i := strings.IndexByte(m, 'l'); i >= 0 {
-		m = m[:i]
-	}
-	m = strings.TrimLeft(m, "+-")
-	digits := strings.ReplaceAll(m, ".", "")
-	hasDot := strings.Contains(m, ".")
-	if digits == "" || digits[0] == '0' || digits[len(digits)-1] == '0' || (len(digits) == 1) == hasDot {
-		return "digits-not-normalized"
-	}
-	return "digits-normalized"
-}
+// c3LongClass: a long float gets its precision from the number of characters of its digit string
+// and is printed with the shortest digits for that precision, so whether it survives depends on
+// the individual value; the sweep cells are the individual source texts.
+func c3LongClass(text string) string { return text }
 
 // c3NumberLike: the token would be taken for a number by a Common Lisp reader in base 10
 // (integer with optional trailing dot, ratio, decimal or exponent float).
@@ -663,9 +653,10 @@ type c3Gen struct {
 
 // c3Avoid lists the constructs the composite generators must not emit (known findings).
 type c3Avoid struct {
-	symClass map[string]bool
-	chars    map[rune]bool
-	emptyObj bool
+	symClass  map[string]bool
+	chars     map[rune]bool
+	emptyObj  bool
+	longFloat bool
 }
 
 func (g *c3Gen) add(o *c3Obj, cf c3Cfg, cell string) {
@@ -827,7 +818,7 @@ func (g *c3Gen) sweeps() {
 			g.add(c3Double(f), cf, "kind=double-float "+v)
 		}
 		for _, s := range []string{"1.5L0", "1.0L0", "-2.25L3", "1.234567890123456789012345L10", "1.0L-5", "3.141592653589793238462643383279L0", "1L100",
-			"0.5L3", "125L0", "12.5L0", "100.25L-3", "7L0", "-9.87654321L-20", "280.679680L12"} {
+			"0.5L3", "125L0", "12.5L0", "100.25L-3", "7L0", "-9.87654321L-20", "280.679680L12", "730.843434L8"} {
 			g.add(c3Long(s), cf, "kind=long-float class="+c3LongClass(s)+" "+v)
 		}
 	}
@@ -919,7 +910,9 @@ func (g *c3Gen) randLeaf(floats bool) *c3Obj {
 			case 1:
 				return c3Double(g.randFloat())
 			default:
-				// digits-normalized long floats only (the other class is a listed finding)
+				if g.avoid.longFloat {
+					continue // listed finding: long floats take their precision from the digit count
+				}
 				return c3Long(fmt.Sprintf("%d.%d%dL%d", 1+r.Intn(999), r.Intn(100000), 1+r.Intn(9), r.Intn(40)-20))
 			}
 		}
@@ -1187,6 +1180,9 @@ func c3LoadAvoid(c *lib.Ctx) c3Avoid {
 		if strings.HasPrefix(f.Signature, "kind=empty-list-object") {
 			av.emptyObj = true
 		}
+		if strings.HasPrefix(f.Signature, "kind=long-float") {
+			av.longFloat = true
+		}
 	}
 	return av
 }
@@ -1441,7 +1437,11 @@ func c3KFails(c *lib.Ctx, cs c3Case) string {
 
 func c03Replay(c *lib.Ctx) {
 	var rec map[string]any
-	if err := lib.ReadJSON(c.Replay, &rec); err != nil {
+	path := c.Replay
+	if _, err := os.Stat(path); err != nil && !filepath.IsAbs(path) {
+		path = filepath.Join(c.Root, path) // the check runs the harness in its run directory
+	}
+	if err := lib.ReadJSON(path, &rec); err != nil {
 		fmt.Println("cannot read replay file:", err)
 		return
 	}
